@@ -129,10 +129,15 @@ class CallMixin:
     def read_data_attr(self, obj, c: ClassInfo, name: str, node=None):
         r = smt.simp(Val.r(obj))
         arr = self.attr_array(name)
+        if self.is_old(obj):
+            arr = self.strip_fresh(arr)
         v = smt.simp(z3.Select(arr, r))
         self.attr_reads.append((name, r))
         t = smt.tag_of(v)
         declared = name in self.declared_attrs(c)
+        ft_spec = self.field_type(c, name)
+        if ft_spec is not None and t is None and self.is_initial_attr_read(v):
+            self.apply_field_type(v, ft_spec)
         if t is not None and t != 'absent':
             return v
         if t is None:
@@ -149,6 +154,32 @@ class CallMixin:
         if fb is not None:
             return fb
         self.raise_new('AttributeError', smt.mk_str(f"no attribute '{name}'"), origin=f'attribute {name}')
+
+    def field_type(self, c: ClassInfo, name: str):
+        fts = getattr(self, 'field_types', None)
+        if not fts:
+            return None
+        for k in c.mro():
+            sp = fts.get((k.qualname, name))
+            if sp is not None:
+                return sp
+        return None
+
+    def is_initial_attr_read(self, v) -> bool:
+        v = smt.simp(v)
+        if not (z3.is_app(v) and v.decl().kind() == z3.Z3_OP_SELECT):
+            return False
+        a = v.arg(0)
+        return z3.is_const(a) and a.decl().name().startswith('H_attr_')
+
+    def apply_field_type(self, v, spec: str) -> None:
+        """class invariant assumed on objects that exist on entry: 'dict[T]' / 'list[T]' / T"""
+        if spec.startswith('dict[') or spec.startswith('list['):
+            kind, inner = spec[:4], spec[5:-1]
+            self._add_axiom(z3.Implies(v != smt.ABSENT, self.type_formula(v, '=' + kind)))
+            self.container_elem_type[smt.simp(v).get_id()] = inner
+        else:
+            self._add_axiom(z3.Implies(v != smt.ABSENT, self.type_formula(v, spec)))
 
     def class_attr_fallback(self, obj, c: ClassInfo, name: str):
         subs = [k for k in self.subclasses.get(c.qualname, [c])]
@@ -515,7 +546,7 @@ class CallMixin:
         if co is not None:
             return self.instantiate_symbolic(fv, co, args, kwargs, star, dstar, node)
         c = self.require_class(fv, 'callee')
-        if c.builtin and c.name == 'UserCallable':
+        if c.builtin and c.is_subclass(builtin_class('UserCallable')):
             return self.oracle_call(fv, args, kwargs, star, dstar, node)
         if c.builtin and c.name == 'partial':
             return self.oracle_call(fv, args, kwargs, star, dstar, node)
